@@ -18,6 +18,17 @@ pub mod fifo {
         GROUP.with(|c| *c.borrow_mut() = g);
     }
 
+    // st3's contract: `Worker` operations (push, pop, being the destination of a steal) may
+    // not overlap with each other on one ring; only `Stealer::steal` may run next to one of
+    // them. Each owner operation is two steps here (enter, then the operation proper), so a
+    // second logical thread can be scheduled in between; an overlap is counted per case.
+    thread_local! {
+        static OVERLAPS: RefCell<Option<Arc<AtomicI64>>> = const { RefCell::new(None) };
+    }
+    pub fn set_overlap_counter(g: Option<Arc<AtomicI64>>) {
+        OVERLAPS.with(|c| *c.borrow_mut() = g);
+    }
+
     #[derive(Debug, Clone, Copy, PartialEq, Eq)]
     pub enum StealError {
         Empty,
@@ -35,6 +46,22 @@ pub mod fifo {
         q: Mutex<VecDeque<T>>,
         cap: usize,
         group: Option<Arc<AtomicI64>>,
+        owner_busy: std::sync::atomic::AtomicBool,
+        overlaps: Option<Arc<AtomicI64>>,
+    }
+
+    impl<T> Ring<T> {
+        fn owner_enter(&self) {
+            shim_sched::step("ring.owner.enter");
+            if self.owner_busy.swap(true, Ordering::SeqCst) {
+                if let Some(o) = &self.overlaps {
+                    o.fetch_add(1, Ordering::SeqCst);
+                }
+            }
+        }
+        fn owner_exit(&self) {
+            self.owner_busy.store(false, Ordering::SeqCst);
+        }
     }
 
     #[derive(Debug)]
@@ -54,7 +81,15 @@ pub mod fifo {
     impl<T> Worker<T> {
         pub fn new(min_capacity: usize) -> Self {
             let cap = min_capacity.max(1).next_power_of_two();
-            Worker { r: Arc::new(Ring { q: Mutex::new(VecDeque::new()), cap, group: GROUP.with(|g| g.borrow().clone()) }) }
+            Worker {
+                r: Arc::new(Ring {
+                    q: Mutex::new(VecDeque::new()),
+                    cap,
+                    group: GROUP.with(|g| g.borrow().clone()),
+                    owner_busy: std::sync::atomic::AtomicBool::new(false),
+                    overlaps: OVERLAPS.with(|g| g.borrow().clone()),
+                }),
+            }
         }
         pub fn stealer(&self) -> Stealer<T> {
             Stealer { r: self.r.clone() }
@@ -71,21 +106,28 @@ pub mod fifo {
             self.r.q.lock().unwrap().is_empty()
         }
         pub fn push(&self, item: T) -> Result<(), T> {
+            self.r.owner_enter();
             shim_sched::step("ring.push");
             let mut q = self.r.q.lock().unwrap();
             if q.len() >= self.r.cap {
                 shim_sched::local_counters(|c| c.ring_push_full += 1);
+                drop(q);
+                self.r.owner_exit();
                 return Err(item);
             }
             q.push_back(item);
             if let Some(g) = &self.r.group {
                 g.fetch_add(1, Ordering::SeqCst);
             }
+            drop(q);
+            self.r.owner_exit();
             Ok(())
         }
         pub fn pop(&self) -> Option<T> {
+            self.r.owner_enter();
             shim_sched::step("ring.pop");
             let x = self.r.q.lock().unwrap().pop_front();
+            self.r.owner_exit();
             if x.is_some() {
                 if let Some(g) = &self.r.group {
                     g.fetch_sub(1, Ordering::SeqCst);
@@ -107,9 +149,12 @@ pub mod fifo {
                 return Err(StealError::Empty);
             }
             let want = count_fn(n);
+            // the destination ring is used as its owner would use it
+            dest.r.owner_enter();
             shim_sched::step("ring.steal.move");
             if Arc::ptr_eq(&self.r, &dest.r) {
                 // stealing from oneself: st3 would see its own free capacity; nothing to move
+                dest.r.owner_exit();
                 return Err(StealError::Empty);
             }
             let mut src = self.r.q.lock().unwrap();
@@ -117,12 +162,18 @@ pub mod fifo {
             let spare = dest.r.cap - dst.len();
             let k = want.min(spare).min(src.len());
             if k == 0 {
+                drop(dst);
+                drop(src);
+                dest.r.owner_exit();
                 return Err(StealError::Empty);
             }
             for _ in 0..k {
                 let x = src.pop_front().unwrap();
                 dst.push_back(x);
             }
+            drop(dst);
+            drop(src);
+            dest.r.owner_exit();
             shim_sched::local_counters(|c| c.steals_ok += 1);
             Ok(k)
         }
